@@ -460,6 +460,14 @@ func (a *Analyzer) onExclusive(n *nodeState, r *ev.Rec) {
 		if r.Err != lock {
 			a.find("C20", "directory-in-use-not-refused", "in-use:"+r.Op, r.Q, "%s on the directory of %s while it is being served returned %q, want ErrLockExists", r.Op, n.key, r.Err)
 		}
+	case "new-while-serving":
+		if r.Err != lock {
+			a.find("C20", "directory-in-use-not-refused", "in-use:"+r.Op, r.Q, "New on the directory of %s while it is being served returned %q, want ErrLockExists (its documented answer): the instance it hands out holds term, vote and log position as they were, and nothing stops its Serve once the other instance is gone", n.key, r.Err)
+		}
+	case "early-instance-served-after-stop":
+		if r.Err == "" {
+			a.find("C20", "stale-instance-served", "", r.Q, "an instance created on the directory of %s while another one served it was accepted by Serve after that one had stopped: %s", n.key, r.Note)
+		}
 	case "setidentity-same-after-stop":
 		if r.Err != "" {
 			a.find("C20", "setidentity-same-refused", "", r.Q, "SetIdentity with the stored identity on the idle directory of %s returned %q", n.key, r.Err)
